@@ -23,7 +23,7 @@ TracePut == /\ IsEvent("put") /\ phase = "put"
 
 TraceGet == /\ IsEvent("get") /\ phase = "get"
             /\ getok' = Ev.ok /\ asked' = Ev.seq
-            /\ GetOK(Ev.ok, Ev.seq)
+            /\ GetOKObserved(Ev.ok, Ev.seq)
             /\ phase' = "done"
             /\ UNCHANGED <<n, want, wr, refuse, downs, holders, putok>>
 
